@@ -31,7 +31,8 @@ class C08(Prop):
                 "NV.C08.hb_remove_order_tie", "NV.C08.present2_order_tie", "NV.C08.flag_bits_tie", "NV.C08.superWalk_clear", "NV.C08.acyclic_redirect", "NV.C08.init_inv",
                 "NV.C08.objects_order_tie", "NV.C08.hb_ops_tie", "NV.C08.hash_prefix_tie", "NV.C08.add_action_cond_tie",
                 "NV.C08.living_command_cond_tie", "NV.C08.move_cond_tie", "NV.C08.destruct_cond_tie",
-                "NV.C08.move_walk_terminates", "NV.C08.task_no_hang", "NV.C08.no_hang", "NV.C08.objects_filter_sound"]
+                "NV.C08.move_walk_terminates", "NV.C08.task_no_hang", "NV.C08.no_hang", "NV.C08.objects_filter_sound",
+                "NV.C08.catch_contains_errors", "NV.C08.catch_restores_guards"]
     consts = [("oDestructed", "O_DESTRUCTED"), ("oEnableCommands", "O_ENABLE_COMMANDS"), ("oClone", "O_CLONE")]
     const_headers = ["lpc/object.h"]
     quick_n = 700
